@@ -464,6 +464,8 @@ class DAE:
         self.m = 0
         self.n = 0
         self.o = 0
+        self.p = 0
+        self.q = 0
         self.resize_arrays()
         self.clear_ijv()
         self.clear_ts()
